@@ -10,8 +10,9 @@
 
 using wl::Cell;
 
-enum { OP_WRITE = 0, OP_WRITE_CANCEL, OP_WRITE_MOVE, OP_SNAPSHOT, OP_WRITE_THROW };
-static const char* const OPN[] = {"write", "write_cancel", "write_move", "snapshot", "write_throw"};
+enum { OP_WRITE = 0, OP_WRITE_CANCEL, OP_WRITE_MOVE, OP_SNAPSHOT, OP_WRITE_THROW, OP_WRITE_UNWIND };
+static const char* const OPN[] = {"write", "write_cancel", "write_move", "snapshot", "write_throw",
+                                  "write_unwind"};
 
 namespace {
 struct State {
@@ -131,6 +132,35 @@ struct WL {
                        "a write operation returned with the writer lock still held");
     }
 
+    /// a commit made from a destructor that runs while an unrelated exception is
+    /// unwinding the stack (clean-up code that records something): releasing the
+    /// handle must publish exactly as it does anywhere else
+    struct UnwindCommitter {
+        WL* w;
+        gsim::Op op;
+        ~UnwindCommitter()
+        {
+            gsim::Op o2 = op;
+            o2.code = OP_WRITE;
+            try {
+                w->do_write(o2);
+            }
+            catch (...) {
+            }
+        }
+    };
+    void do_write_unwind(gsim::Op op)
+    {
+        try {
+            UnwindCommitter c{this, op};
+            gsim::yield();
+            throw gsim::injected{55, 0};
+        }
+        catch (const gsim::injected&) {
+            gsim::probe("cow.commit_during_unwinding");
+        }
+    }
+
     void do_snapshot(gsim::Op op)
     {
         int lo;
@@ -185,6 +215,7 @@ struct WL {
         for (int i = 0; i < n; i++) {
             gsim::Op op = gsim::prog_op(t, i);
             if (op.code == OP_SNAPSHOT) do_snapshot(op);
+            else if (op.code == OP_WRITE_UNWIND) do_write_unwind(op);
             else do_write(op);
         }
     }
@@ -201,7 +232,7 @@ struct WL {
             int k = 1 + gsim::gen_int(3 + (gsim::thorough() ? 2 : 0));
             for (int i = 0; i < k; i++) {
                 int r = gsim::gen_int(10);
-                int code = r < 6 ? OP_WRITE : r < 8 ? OP_WRITE_CANCEL : OP_WRITE_MOVE;
+                int code = r < 5 ? OP_WRITE : r < 7 ? OP_WRITE_CANCEL : r < 9 ? OP_WRITE_MOVE : OP_WRITE_UNWIND;
                 (void)with_throw;
                 gsim::prog_add(t, {code, gsim::gen_int(3) == 0 ? 1 : 0, gsim::gen_int(3), 0});
             }
